@@ -21,6 +21,7 @@ import (
 // (NewIndex(x.Index)) is reachable for *ssa.Call and unreachable for every
 // other producer.
 func c08tuples(c *core.Ctx, r *core.Report) {
+	r.Explain("R08.tuples: in DoExtract the call-result index filter (NewIndex(x.Index)) is reachable when x.Tuple is an *ssa.Call and unreachable for every other tuple producer of go/ssa (Next, Select and the kinds with a CommaOk field), by partial evaluation of the type tests on x.Tuple.")
 	fn := c.Func("analysis/dataflow", "IntraAnalysisState.DoExtract")
 	if fn == nil {
 		r.Fail("infra.anchor-unresolved", "R08.tuples|analysis/dataflow.IntraAnalysisState.DoExtract", "", "not found")
